@@ -15,5 +15,6 @@ def build(tier):
     if tier == "thorough":
         us += c07.build(tier)
     for u in us:
-        u.obligations = [o for o in u.obligations if (o.panic_prop or o.prop) == "C17" and not o.info_only]
+        u.obligations = [o for o in u.obligations if ((o.panic_prop or o.prop) == "C17" or o.expect_fail) and not o.info_only
+                         and not (tier == "quick" and o.prop == "C01")]   # the pooling harnesses cost 10 min each: thorough tier only
     return us
